@@ -179,6 +179,10 @@ NoRunningWhenIdle == (Idle /\ ResetOnUnwind) => \A c \in Cmd : st[c] # "running"
 \* liveness: every call terminates
 Terminates == [](~Idle ~> Idle)
 
+\* ---------- refinement: every step of the engine is a step (or a stuttering step) of the schedule-free specification MPRunAbs
+Abs == INSTANCE MPRunAbs WITH Cmds <- Cmd, uses <- [c \in Cmd |-> Reads(c)], ast <- st, aval <- val
+RefinesAbs == Abs!ASpec
+
 \* printed once per terminal state for the replay harness (single worker runs only)
 Report == (Terminal /\ Len(hist) = MaxCalls) =>
              PrintT(<<"TERM", direct, listed, fails, ignored, nulls, late, hist, pstate, err, nexec, ndone>>)
